@@ -176,7 +176,9 @@ theorem popen (F : Frame inpS inpW δ) (hops : OpsSim env.ops inpS inpW δ K Loc
     (∃ e pw', rs = .error e ∧ PRunsM env inpW false pw mw pw' (.error e)) ∨
     (∃ c, rs = .ok c ∧ ∃ (d1 d' skip' : Nat) (x0 : Ctx κ) (pwk : Parser κ) (mw1 : M κ),
       (∀ p' r, PRunsM env inpW false pwk mw1 p' r → PRunsM env inpW false pw mw p' r) ∧
-      K d1 x0.sink mw1.x.sink ∧ SinkBrk env.ops inpS d1 d' x0 ps'.x.sink ∧
+      K d1 x0.sink mw1.x.sink ∧
+      SinkBrk env.ops Loc inpS d1 d' x0 ps'.x.sink c (ps'.machine false).c.lastTextType ∧
+      lexStart (ps'.machine false).r = 0 ∧ ps'.x.prevConsumed = x0.prevConsumed + c ∧
       PRelM env.tbl fs inpW (δ + c) d' skip' ps' (ps'.machine false) pwk mw1) := by
   induction hr with
   | @eoi p m m' c hrun =>
@@ -189,7 +191,7 @@ theorem popen (F : Frame inpS inpW δ) (hops : OpsSim env.ops inpS inpW δ K Loc
         | err e => exact hlo.elim
         | directive d' b' => exact hlo.elim
         | endOfInput c' => obtain ⟨he, _⟩ := hlo; cases he
-    · rcases hbo with hpan | ⟨c0, d', skip', hsig, hcore, hsim, hpc, hsink⟩
+    · rcases hbo with hpan | ⟨c0, d', skip', hsig, hcore, hsim, hpc, hsink, hls0⟩
       · exact hpan.elim
       · simp only [Option.some.injEq, Signal.endOfInput.injEq] at hsig
         subst hsig
@@ -197,8 +199,11 @@ theorem popen (F : Frame inpS inpW δ) (hops : OpsSim env.ops inpS inpW δ K Loc
         obtain ⟨hk1', hl1⟩ := hrun.stable
         have hks : isLex m'.r = dirLex p.directive := by rw [hk1']; exact hp.kindS
         have hms : (p.store m').machine false = m' := store_machine p m' false hks (by rw [hl1]; exact hl)
+        have hmb : (bump (p.store m') c).machine false = { m' with x := (bump (p.store m') c).x } := by
+          rw [bump_machine, hms]; simp only [bump, store_x]
         refine ⟨c, rfl, d1, d', skip', x0, pw, mw1, fun p' r h => pruns_cont hcont h, hk1,
-          by simpa [bump, store_x] using hsink, ?_⟩
+          by rw [hmb]; simpa [bump, store_x] using hsink, by rw [hmb]; exact hls0,
+          by simp only [bump, store_x]; rw [hpc], ?_⟩
         refine ⟨by simp [bump, store_directive, hp.dir], ⟨?_, ?_⟩, ?_, ?_, ?_⟩
         · rw [bump_machine, hms]
           have := hcore.congr_pc (m'.x.prevConsumed + c) mw1.x.prevConsumed
@@ -235,10 +240,10 @@ theorem popen (F : Frame inpS inpW δ) (hops : OpsSim env.ops inpS inpW δ K Loc
             cases dr' <;> simp [loadBookmark, Parser.machine, store_x]
           have e2 : ((loadBookmark env dr' bm' (pw.store mw')).machine false).x = mw'.x := by
             cases dr' <;> simp [loadBookmark, Parser.machine, store_x]
-          rcases ih hrel hl' (by rw [e1, e2]; exact hk0) (fun hh => absurd hh (Nat.lt_irrefl 0)) with hpan | ⟨e, pw', h1, h2⟩ | ⟨c, h1, d1, d', skip', x0, pwk, mw1, hcont, h2, h3, h4⟩
+          rcases ih hrel hl' (by rw [e1, e2]; exact hk0) (fun hh => absurd hh (Nat.lt_irrefl 0)) with hpan | ⟨e, pw', h1, h2⟩ | ⟨c, h1, d1, d', skip', x0, pwk, mw1, hcont, h2, h3, h4, h5, h6⟩
           · exact Or.inl hpan
           · exact Or.inr (Or.inl ⟨e, pw', h1, PRunsM.dir hrw h2⟩)
-          · exact Or.inr (Or.inr ⟨c, h1, d1, d', skip', x0, pwk, mw1, fun p' r h => PRunsM.dir hrw (hcont p' r h), h2, h3, h4⟩)
+          · exact Or.inr (Or.inr ⟨c, h1, d1, d', skip', x0, pwk, mw1, fun p' r h => PRunsM.dir hrw (hcont p' r h), h2, h3, h4, h5, h6⟩)
     · rcases hbo with hpan | ⟨c0, d', skip', hsig, _⟩
       · exact hpan.elim
       · cases hsig
